@@ -209,6 +209,16 @@ impl<R: DynamicChannelRegion> RegionHandler for DynamicChannelPlan<R> {
                 }
             }
             Frame::Data => {
+                // Never spin on a plan that was left without a usable channel (last enabled
+                // channel removed, mask naming undefined channels only): fall back to the
+                // default channels, which cannot be removed.
+                if !(0..NUM_CHANNELS_DYNAMIC as usize)
+                    .any(|i| self.channel_mask.is_enabled(i).unwrap() && self.channels[i].is_some())
+                {
+                    for i in 0..R::NUM_JOIN_CHANNELS as usize {
+                        self.channel_mask.set_channel(i, true);
+                    }
+                }
                 let mut channel = self.get_random_in_range(rng);
                 loop {
                     if self.channel_mask.is_enabled(channel).unwrap()
